@@ -215,7 +215,11 @@ class PFDLTreeVisitor(PFDLParserVisitor):
     def visitStruct_initialization(self, ctx: PFDLParser.Struct_initializationContext) -> Struct:
         json_string = ctx.json_object().getText()
 
-        struct = Struct.from_json(json_string, self.error_handler, ctx.json_object())
+        try:
+            struct = Struct.from_json(json_string, self.error_handler, ctx.json_object())
+        except ValueError:  # json.JSONDecodeError: the lexer accepts strings that JSON does not
+            self.error_handler.print_error("The struct instantiation is not valid JSON", context=ctx)
+            struct = Struct()
         struct.name = ctx.STARTS_WITH_UPPER_C_STR().getText()
         struct.context = ctx
         return struct
